@@ -131,6 +131,16 @@ Check c06_root_at_lower_end : forall (f : R -> res R) lo init hi tol cap vm,
   bisection f {| b_lower := lo; b_init := init; b_upper := hi |} tol cap = Ok lo.
 Print Assumptions c06_root_at_lower_end.
 
+(* why the converse is only partial: even in exact arithmetic a bracketed simple root with a budget of
+   1200 is answered NoConvergence when init is the first midpoint and the second midpoint is 0
+   (the stale relative change; finding F-C06-STALE-ZERO, also observed on the real code) *)
+Theorem c06_converse_counterexample : bisection (fun x => Ok (x - 1 / 2)) {| b_lower := -3; b_init := -1; b_upper := 1 |} (1 / 100000) 1200
+    = Err ENoConvergence.
+Proof. exact Proofs.Bisect.c06_converse_counterexample. Qed.
+Check c06_converse_counterexample : bisection (fun x => Ok (x - 1 / 2)) {| b_lower := -3; b_init := -1; b_upper := 1 |} (1 / 100000) 1200
+    = Err ENoConvergence.
+Print Assumptions c06_converse_counterexample.
+
 (* non-vacuity: x^2 - 4 on [2, 5] (root at the lower end) returns Ok 2, so the hypotheses of
    c06_sound / c06_sound_simple / c06_root_at_lower_end are satisfiable *)
 Example c06_nonvacuous :
